@@ -1,0 +1,14 @@
+//go:build !verif
+
+// Package vhook holds verification hooks. Without the build tag "verif" every function is
+// an empty, inlinable no-op.
+package vhook
+
+// At marks a named point of the code (no-op without the verif tag).
+func At(point string, args ...interface{}) {}
+
+// Go announces that a background goroutine is about to start (no-op without the verif tag).
+func Go() {}
+
+// Done announces that a background goroutine has finished (no-op without the verif tag).
+func Done() {}
